@@ -217,6 +217,7 @@ def run(req):
     evaluations = 0
     distinct = set()
     failure = None
+    veterans = {}       # exponent -> one algorithm instance that serves every request of this run
     while time.time() - t0 < budget:
         groups, exponent = gen_config(rng)
         il, el, eu, iu = advertised(groups)
@@ -258,6 +259,28 @@ def run(req):
                 samples.append({"groups": [[b, i, d] for b, i, d in groups], "exponent": exponent, "power": power,
                                 "distribution": dict(res.distribution), "remaining": res.remaining_power})
             f, fid = check(groups, exponent, power, res, tr, split_log, req.get("prop"))
+            if not f:
+                # the same request on a long-lived instance (as BatteryManager keeps one for its whole life), twice in a
+                # row: an answer that differs from the fresh instance's must still satisfy the clauses
+                vet = veterans.setdefault(exponent, BatteryDistributionAlgorithm(distributor_exponent=exponent))
+                for nth in (1, 2):
+                    try:
+                        v = vet.distribute_power(power, [make_pair(b, invs, d) for b, invs, d in groups])
+                    except Exception as e:  # pylint: disable=broad-except
+                        failure = (f"distribute_power raised {type(e).__name__}: {e} on an instance that had served other "
+                                   f"requests before", None, groups, exponent, power)
+                        break
+                    evaluations += 1
+                    if same_result(v, res, max(1.0, abs(power))):
+                        continue
+                    vf, _ = check(groups, exponent, power, v, Trace(), [], req.get("prop"))
+                    if vf:
+                        failure = (vf + f" - on an algorithm instance that had served other requests before (call #{nth} of this "
+                                        f"request in a row); a fresh instance gives {dict(res.distribution)} / remainder "
+                                        f"{res.remaining_power}: the answer depends on the instance's history", None, groups, exponent, power)
+                        break
+                if failure:
+                    break
             if f:
                 # Is this one of the listed findings?  That is decided on the PINNED algorithm (a verbatim copy of the
                 # pinned file): it is run on the same input, classified by the same rules, and the deviation counts as
@@ -307,7 +330,9 @@ def run(req):
            "rule": "seeded random consistent configurations (1-3 battery groups x 1-3 inverters, bounds from a lattice with "
                    "incl_lower <= excl_lower <= 0 <= excl_upper <= incl_upper, SoC below/at/inside/at/above its limits, exponent in "
                    "{0, 1/2, 1, 2, 3}); per configuration requests on / just outside the advertised exclusion bound, inside, on and "
-                   "above the inclusion bound, both signs; distinct = distinct (configuration, exponent, request) triples"}
+                   "above the inclusion bound, both signs; every request also twice in a row on one long-lived instance per exponent "
+                   "(answers that depend on the instance's history must still satisfy the clauses); "
+                   "distinct = distinct (configuration, exponent, request) triples"}
     if failure:
         out["failure"] = {"clause": "C01/C02 clause", "detail": failure[0]}
         out["inputs"] = {"groups": [[b, i, d] for b, i, d in failure[2]], "exponent": failure[3], "power": failure[4]}
